@@ -462,3 +462,10 @@ func init() {
 	}
 }
 
+
+func init() {
+	for _, pid := range []string{"C05", "C07", "C18"} {
+		pid := pid
+		Properties[pid].Rules = append(Properties[pid].Rules, Rule{pid + "/boolean-schema-overwrites", func(c *Ctx) { ruleBooleanSchemaOverwrites(c, pid+"/boolean-schema-overwrites") }})
+	}
+}
